@@ -331,6 +331,23 @@ func init() {
 				}
 			}
 		}
+		// … and with a hostile component somewhere among exactly n components
+		for _, prop := range []string{"margin", "border", "font", "transition", "background", "grid", "padding", "text-decoration"} {
+			h := css.GetDefaultHandler(prop)
+			for _, n := range []int{2, 16, 17, 32, 33, 63, 64, 65, 66} {
+				for _, hf := range []string{"expression(alert(1))", "url(javascript:alert(1))", "<script>"} {
+					for _, pos := range []int{n / 2, n - 1} {
+						toks := make([]string, n)
+						for i := range toks {
+							toks[i] = "1px"
+						}
+						toks[pos] = hf
+						v := strings.Join(toks, " ")
+						fmt.Fprintf(c.w, "hdl %s %s %s\n", bmx.HexS(prop), bmx.HexS(v), safeHandler(h, v))
+					}
+				}
+			}
+		}
 		for _, v := range all {
 			fmt.Fprintf(c.w, "hdl %s %s %s\n", bmx.HexS("no-such-property"), bmx.HexS(v), b01(css.GetDefaultHandler("no-such-property")(v)))
 		}
